@@ -6,13 +6,20 @@ import Std.Tactic.Do
 # Helper lemmas for C13 (a panic escaping `stabilise` poisons the state)
 
 `Fr t s` says "the status of `s` is `t.status`, its configuration is `t.cfg`, its liveness flag is
-`t.alive`".  Part 1 pushes this
-frame through every function of the model except `stabilise` and `stabiliseEnd` as a Hoare triple
-`FPres t x := ⦃Fr t⦄ x ⦃post⟨Fr t, Fr t⟩⦄` (normal return *and* panic), in the style of
-`Proofs/HeapWF.lean`.  That file is imported (two modules that run `mvcgen` over the same model
-functions cannot be imported side by side: the auxiliary matcher lemmas would be declared twice), so
-its `@[spec]` lemmas about the same programs are in scope: `fr_mvcgen` is `mvcgen` with all of them
-erased, and the lemmas here are registered with high priority.  Part 2 splits `stabilise` into its phases.  Part 3 is the recompute-heap drain.
+`t.alive`".
+
+* Part 1 pushes this frame through every function of the model except `stabilise` and `stabiliseEnd`
+  as a Hoare triple `FPres t x := ⦃Fr t⦄ x ⦃post⟨Fr t, Fr t⟩⦄` (normal return *and* panic), in the
+  style of `Proofs/HeapWF.lean`.
+* Part 2 splits `stabilise` into its phases (`propagate`, `stabiliseEndPrepare`, `runHandlers`).
+* Part 3: a heap drain that returns has emptied the heap (debug builds).
+* Part 4: sequences of API calls (`ApiCall`, `runCalls`); parked var values (`VS`).
+* Part 5: where a panic of `stabilise` comes from (`PanicOrigin`); example states.
+
+`Proofs/HeapWF.lean` is imported on purpose: two modules that run `mvcgen` over the same model
+functions cannot be imported side by side (the auxiliary matcher lemmas `….match_1.congr_eq_1…` would be
+declared twice).  Its `@[spec]` lemmas about the same programs are therefore in scope; `fr_mvcgen` is
+`mvcgen` with all of them erased, and the lemmas here are registered with high priority.
 -/
 namespace IncrVerif.Proofs.Poison
 open IncrVerif.Engine IncrVerif.Proofs Std.Do
@@ -598,6 +605,53 @@ theorem propagate_empty_run (env : Env) (fuel : Nat) (s s' : State) (hd : s.cfg.
   rw [hr] at this
   exact this.2
 
+/-! with a well-formed heap (`Proofs/HeapWF.lean`): an empty heap, bucket by bucket -/
+
+theorem all_nil_of_sum_length_zero (l : List (List Nat)) (h : (l.map List.length).sum = 0) :
+    ∀ x ∈ l, x = [] := by
+  induction l with
+  | nil => intro x hx; cases hx
+  | cons a l ih =>
+    simp only [List.map_cons, List.sum_cons] at h
+    intro x hx
+    rcases List.mem_cons.1 hx with rfl | hx
+    · exact List.eq_nil_of_length_eq_zero (by omega)
+    · exact ih (by omega) x hx
+
+/-- well-formed heap of length 0: every bucket is empty and no node is marked as queued -/
+theorem nothing_queued {s : State} (h : HeapWF s) (hl : s.rch.length = 0) :
+    (∀ (k : Nat) (hk : k < s.rch.queues.size), s.rch.queues[k] = []) ∧
+      ∀ n, n < s.nodes.size → (s.nodeD n).heightInRch = -1 := by
+  have hsum : bucketSum s.rch.queues = 0 := by rw [← h.length]; exact hl
+  have hall := all_nil_of_sum_length_zero _ hsum
+  have hb : ∀ (k : Nat) (hk : k < s.rch.queues.size), s.rch.queues[k] = [] := by
+    intro k hk
+    exact hall _ (by simp)
+  refine ⟨hb, ?_⟩
+  intro n hn
+  rcases h.range n hn with h1 | ⟨h1, h2⟩
+  · exact h1
+  · exfalso
+    have hk : (s.nodeD n).heightInRch.toNat < s.rch.queues.size := by omega
+    have := (h.mem _ hk n).2 ⟨hn, by omega⟩
+    rw [hb _ hk] at this
+    cases this
+
+/-- debug builds, well-formed heap: after a drain that returned, the heap is well-formed and empty,
+bucket by bucket and marker by marker -/
+theorem drainHeap_nothing_queued (env : Env) (fuel : Nat) (s s' : State) (hwf : HeapWF s)
+    (hd : s.cfg.debug = true) (hr : (drainHeap env fuel).run.run s = (.ok (), s')) :
+    HeapWF s' ∧ s'.rch.length = 0 ∧
+      (∀ (k : Nat) (hk : k < s'.rch.queues.size), s'.rch.queues[k] = []) ∧
+      ∀ n, n < s'.nodes.size → (s'.nodeD n).heightInRch = -1 := by
+  have h1 : HWF .debug s' := by
+    have := (drainHeap_spec env fuel).run s ((HWF_debug_iff s).2 ⟨hwf, hd⟩)
+    rw [hr] at this
+    exact this
+  have h2 := drainHeap_empty_run env fuel s s' hd hr
+  exact ⟨h1.heapWF, h2, nothing_queued h1.heapWF h2⟩
+
+
 /-! ## Part 4: sequences of calls of the public API other than `stabilise` -/
 
 /-- one call of the public API other than `stabilise` (result discarded) -/
@@ -641,5 +695,368 @@ theorem runCalls_frame (cs : List ApiCall) (s : State) :
     have h2 := c.step_frame s
     simp only [runCalls, List.foldl_cons] at h1 ⊢
     exact ⟨h1.1.trans h2.1, h1.2.1.trans h2.2.1, h1.2.2.trans h2.2.2⟩
+
+/-! the same calls, from a state poisoned with status `Stabilising`: no var cell's `value` moves -/
+
+/-- the engine is (stuck) stabilising and var cell `v` exists with value `x` -/
+def VS (v : Nat) (x : Val) (s : State) : Prop :=
+  s.status = .stabilising ∧ ∃ vc, s.vars[v]? = some vc ∧ vc.value = x
+
+abbrev VPres {α} (v : Nat) (x : Val) (m : M α) : Prop :=
+  ⦃fun s => ⌜VS v x s⌝⦄ m ⦃post⟨fun _ s => ⌜VS v x s⌝, fun _ s => ⌜VS v x s⌝⟩⦄
+
+theorem VS.modify {v : Nat} {x : Val} {s : State} (h : VS v x s) (w : Nat) (f : VarCell → VarCell)
+    (hf : ∀ c, (f c).value = c.value) : VS v x { s with vars := s.vars.modify w f } := by
+  obtain ⟨hs, vc, hv, hx⟩ := h
+  refine ⟨hs, ?_⟩
+  simp only [Array.getElem?_modify]
+  split
+  · subst_vars; exact ⟨f vc, by simp [hv], by rw [hf]⟩
+  · exact ⟨vc, hv, hx⟩
+
+theorem VS.push {v : Nat} {x : Val} {s : State} (h : VS v x s) (c : VarCell) :
+    VS v x { s with vars := s.vars.push c } := by
+  obtain ⟨hs, vc, hv, hx⟩ := h
+  refine ⟨hs, vc, ?_, hx⟩
+  have hlt : v < s.vars.size := (Array.getElem?_eq_some_iff.1 hv).1
+  simp only [Array.getElem?_push]
+  rw [if_neg (by omega)]
+  exact hv
+
+macro "vs_triv" : tactic =>
+  `(tactic| first
+    | assumption
+    | (intros; trivial)
+    | (intros; rfl)
+    | exact VS.modify ‹_› _ _ (fun _ => rfl)
+    | exact VS.push ‹_› _
+    | (exfalso; subst_vars; apply ‹_ = Status.stabilising → False›; exact (‹VS _ _ _›).1)
+    | (intro h _; exact h))
+
+abbrev vsInv (v : Nat) (x : Val) {α : Type} {β : Type} {xs : List α} :
+    Invariant xs β (.except Panic (.arg State .pure)) :=
+  post⟨fun _ s => ⌜VS v x s⌝, fun _ s => ⌜VS v x s⌝⟩
+
+macro "vs_fin" v:term:max x:term:max : tactic =>
+  `(tactic| (try any_goals exact vsInv $v $x
+             try any_goals exact tagOf default
+             all_goals first
+               | vs_triv
+               | skip))
+
+section parked
+variable (v : Nat) (x : Val)
+
+@[spec 20000] theorem assertM_vs (c : Bool) (site : String) : VPres v x (assertM c site) := by
+  fr_mvcgen [-assertM_fr, assertM]
+@[spec 20000] theorem dassert_vs (c : Bool) (site : String) : VPres v x (dassert c site) := by
+  fr_mvcgen [-dassert_fr, dassert]
+@[spec 20000] theorem getNode_vs (n : Nat) : VPres v x (getNode n) := by
+  fr_mvcgen [-getNode_fr, getNode]
+@[spec 20000] theorem modNode_vs (n : Nat) (f : Node → Node) : VPres v x (modNode n f) := by
+  fr_mvcgen [-modNode_fr, modNode]
+@[spec 20000] theorem getBind_vs (n : Nat) : VPres v x (getBind n) := by
+  fr_mvcgen [-getBind_fr, getBind]
+@[spec 20000] theorem modBind_vs (n : Nat) (f : BindRec → BindRec) : VPres v x (modBind n f) := by
+  fr_mvcgen [-modBind_fr, modBind]
+@[spec 20000] theorem getExpert_vs (n : Nat) : VPres v x (getExpert n) := by
+  fr_mvcgen [-getExpert_fr, getExpert]
+@[spec 20000] theorem modExpert_vs (n : Nat) (f : ExpertRec → ExpertRec) : VPres v x (modExpert n f) := by
+  fr_mvcgen [-modExpert_fr, modExpert]
+@[spec 20000] theorem getObs_vs (n : Nat) : VPres v x (getObs n) := by
+  fr_mvcgen [-getObs_fr, getObs]
+@[spec 20000] theorem modObs_vs (n : Nat) (f : ObsRec → ObsRec) : VPres v x (modObs n f) := by
+  fr_mvcgen [-modObs_fr, modObs]
+@[spec 20000] theorem getVar_vs (n : Nat) : VPres v x (getVar n) := by
+  fr_mvcgen [-getVar_fr, getVar]
+@[spec 20000] theorem modVar_vs (n : Nat) (f : VarCell → VarCell) (hf : ∀ c, (f c).value = c.value) :
+    VPres v x (modVar n f) := by
+  fr_mvcgen [-modVar_fr, modVar]
+  exact VS.modify ‹_› _ _ hf
+@[spec 20000] theorem bumpCounter_vs (f : Counters → Counters) : VPres v x (bumpCounter f) := by
+  fr_mvcgen [-bumpCounter_fr, bumpCounter]
+@[spec 20000] theorem handleAfterStabilisation_vs (n : Nat) :
+    VPres v x (handleAfterStabilisation n) := by
+  fr_mvcgen [-handleAfterStabilisation_fr, handleAfterStabilisation]
+@[spec 20000] theorem resolveOpnd_vs (loc : List Nat) (o : Opnd) : VPres v x (resolveOpnd loc o) := by
+  fr_mvcgen [-resolveOpnd_fr, resolveOpnd]
+@[spec 20000] theorem isConstant_vs (n : Nat) : VPres v x (isConstant n) := by
+  fr_mvcgen [-isConstant_fr, isConstant]
+@[spec 20000] theorem createNode_vs (k : Kind) (sc : Scope) (c : CutoffK) :
+    VPres v x (createNode k sc c) := by
+  fr_mvcgen [-createNode_fr, createNode]
+@[spec 20000] theorem createVar_vs (w : Val) (sc : Scope) : VPres v x (createVar w sc) := by
+  fr_mvcgen [-createVar_fr, createVar]
+  vs_fin v x
+@[spec 20000] theorem createBind_vs (body lhs : Nat) : VPres v x (createBind body lhs) := by
+  fr_mvcgen [-createBind_fr, createBind]
+
+@[spec 20000] theorem mapM_vs {α β} (f : α → M β) (hf : ∀ a, VPres v x (f a)) (l : List α) :
+    VPres v x (l.mapM f) := by
+  induction l with
+  | nil => fr_mvcgen [-mapM_fr, List.mapM_nil]
+  | cons a l ih =>
+    have := hf a
+    rw [List.mapM_cons]
+    fr_mvcgen [-mapM_fr, this, ih]
+
+theorem writeVar_vs (w : Nat) (f : Val → Val) (isSet : Bool) : VPres v x (writeVar w f isSet) := by
+  fr_mvcgen [-writeVar_fr, writeVar]
+  vs_fin v x
+theorem subscribe_vs (o hid : Nat) : VPres v x (subscribe o hid) := by
+  fr_mvcgen [-subscribe_fr, subscribe]
+  vs_fin v x
+theorem unsubscribe_vs (o token owner : Nat) : VPres v x (unsubscribe o token owner) := by
+  fr_mvcgen [-unsubscribe_fr, unsubscribe]
+  vs_fin v x
+theorem disallowFutureUse_vs (o : Nat) : VPres v x (disallowFutureUse o) := by
+  fr_mvcgen [-disallowFutureUse_fr, disallowFutureUse]
+  vs_fin v x
+theorem elabInstr_vs (loc : List Nat) (lv : Val) (i : Instr) : VPres v x (elabInstr loc lv i) := by
+  fr_mvcgen [-elabInstr_fr, elabInstr]
+  vs_fin v x
+theorem setMaxHeightAllowed_vs (newMax : Nat) : VPres v x (setMaxHeightAllowed newMax) := by
+  fr_mvcgen [-setMaxHeightAllowed_fr, setMaxHeightAllowed]
+  vs_fin v x
+
+theorem ApiCall.run_vs (c : ApiCall) : VPres v x c.run := by
+  have h1 := writeVar_vs v x
+  have h2 := subscribe_vs v x
+  have h3 := unsubscribe_vs v x
+  have h4 := disallowFutureUse_vs v x
+  have h5 := elabInstr_vs v x
+  have h6 := setMaxHeightAllowed_vs v x
+  cases c <;>
+    fr_mvcgen [ApiCall.run, -writeVar_fr, -subscribe_fr, -unsubscribe_fr, -disallowFutureUse_fr,
+      -elabInstr_fr, -setMaxHeightAllowed_fr, h1, h2, h3, h4, h5, h6]
+
+end parked
+
+theorem ApiCall.step_vs (v : Nat) (x : Val) (c : ApiCall) (s : State) (h : VS v x s) :
+    VS v x (c.step s) := by
+  have := (triple_iff c.run _ _ _).1 (ApiCall.run_vs v x c) s h
+  unfold ApiCall.step
+  split at this <;> simp_all
+
+/-- from a state stuck in status `Stabilising`, no sequence of API calls changes the `value` of an
+existing var cell (writes are parked in `pending`, and nothing ever applies them) -/
+theorem runCalls_value (cs : List ApiCall) (s : State) (v : Nat) (vc : VarCell)
+    (hs : s.status = .stabilising) (hv : s.vars[v]? = some vc) :
+    ∃ vc', (runCalls cs s).vars[v]? = some vc' ∧ vc'.value = vc.value := by
+  have h0 : VS v vc.value s := ⟨hs, vc, hv, rfl⟩
+  suffices h : VS v vc.value (runCalls cs s) from h.2
+  clear hv hs
+  induction cs generalizing s with
+  | nil => exact h0
+  | cons c cs ih =>
+    simp only [runCalls, List.foldl_cons]
+    exact ih (c.step s) (ApiCall.step_vs v vc.value c s h0)
+
+/-! ## Part 5: where a panic of `stabilise` comes from, and the status it leaves -/
+
+/-- status, configuration and liveness after `x`, whether it returned or panicked -/
+def Keeps {α} (x : M α) : Prop :=
+  ∀ s : State, (x.run.run s).2.status = s.status ∧ (x.run.run s).2.cfg = s.cfg ∧
+    (x.run.run s).2.alive = s.alive
+
+theorem FPres.keeps {α} {x : M α} (h : ∀ t, FPres t x) : Keeps x := fun s => FPres.run h s
+
+theorem Keeps.of_run {α} {x : M α} (h : Keeps x) {s s' : State} {r : Except Panic α}
+    (hr : x.run.run s = (r, s')) : s'.status = s.status ∧ s'.cfg = s.cfg ∧ s'.alive = s.alive := by
+  have := h s
+  rw [hr] at this
+  exact this
+
+theorem propagate_keeps (env : Env) (fuel : Nat) : Keeps (propagate env fuel) :=
+  FPres.keeps fun t => propagate_fr t env fuel
+theorem stabiliseEndPrepare_keeps (env : Env) : Keeps (stabiliseEndPrepare env) :=
+  FPres.keeps fun t => stabiliseEndPrepare_fr t env
+theorem runHandlers_keeps (env : Env) (fuel : Nat) (q : List (Nat × NodeUpdate)) :
+    Keeps (runHandlers env fuel q) :=
+  FPres.keeps fun t => runHandlers_fr t env fuel q
+
+/-- the three places a panic of `stabilise` (entered with status `NotStabilising`) can come from -/
+inductive PanicOrigin (env : Env) (fuel : Nat) (s : State) (p : Panic) (s' : State) : Prop where
+  /-- raised by `add_new_observers`, `unlink_disallowed_observers` or the heap drain -/
+  | propagation
+      (h1 : (propagate env fuel).run.run { s with status := .stabilising } = (.error p, s'))
+  /-- raised in `stabilise_end` before the line `status := RunningOnUpdateHandlers` -/
+  | endPrepare (s1 : State)
+      (h1 : (propagate env fuel).run.run { s with status := .stabilising } = (.ok (), s1))
+      (h2 : (stabiliseEndPrepare env).run.run s1 = (.error p, s'))
+  /-- raised in `stabilise_end` after that line, i.e. by an update handler (`run_all`) -/
+  | handlers (s1 : State) (q : List (Nat × NodeUpdate)) (s2 : State)
+      (h1 : (propagate env fuel).run.run { s with status := .stabilising } = (.ok (), s1))
+      (h2 : (stabiliseEndPrepare env).run.run s1 = (.ok q, s2))
+      (h3 : (runHandlers env fuel q).run.run { s2 with status := .runningOnUpdateHandlers }
+              = (.error p, s'))
+
+theorem PanicOrigin.status {env : Env} {fuel : Nat} {s : State} {p : Panic} {s' : State}
+    (h : PanicOrigin env fuel s p s') :
+    (s'.status = .stabilising ∧ ¬ ∃ s1 q s2,
+        (propagate env fuel).run.run { s with status := .stabilising } = (.ok (), s1) ∧
+        (stabiliseEndPrepare env).run.run s1 = (.ok q, s2)) ∨
+    (s'.status = .runningOnUpdateHandlers ∧ ∃ s1 q s2,
+        (propagate env fuel).run.run { s with status := .stabilising } = (.ok (), s1) ∧
+        (stabiliseEndPrepare env).run.run s1 = (.ok q, s2) ∧
+        (runHandlers env fuel q).run.run { s2 with status := .runningOnUpdateHandlers }
+          = (.error p, s')) := by
+  cases h with
+  | propagation h1 =>
+    left
+    refine ⟨((propagate_keeps env fuel).of_run h1).1, ?_⟩
+    rintro ⟨s1, q, s2, h1', -⟩
+    rw [h1] at h1'; cases h1'
+  | endPrepare s1 h1 h2 =>
+    left
+    have e1 := ((propagate_keeps env fuel).of_run h1).1
+    have e2 := ((stabiliseEndPrepare_keeps env).of_run h2).1
+    refine ⟨e2.trans e1, ?_⟩
+    rintro ⟨s1', q, s2, h1', h2'⟩
+    rw [h1] at h1'; cases h1'
+    rw [h2] at h2'; cases h2'
+  | handlers s1 q s2 h1 h2 h3 =>
+    right
+    exact ⟨((runHandlers_keeps env fuel q).of_run h3).1, s1, q, s2, h1, h2, h3⟩
+
+/-- every panic of a `stabilise` entered with status `NotStabilising` has one of the three origins -/
+theorem stabilise_panic_origin (env : Env) (fuel : Nat) (s : State) (p : Panic) (s' : State)
+    (h : s.status = .notStabilising) (hr : (stabilise env fuel).run.run s = (.error p, s')) :
+    PanicOrigin env fuel s p s' := by
+  rw [stabilise_run env fuel s h] at hr
+  rcases h1 : (propagate env fuel).run.run { s with status := .stabilising } with ⟨r1, s1⟩
+  rw [h1] at hr
+  cases r1 with
+  | error p1 =>
+    obtain ⟨e1, e2⟩ := Prod.mk.inj hr
+    cases e1; cases e2
+    exact .propagation h1
+  | ok u =>
+    dsimp only at hr
+    rcases h2 : (stabiliseEndPrepare env).run.run s1 with ⟨r2, s2⟩
+    rw [h2] at hr
+    cases r2 with
+    | error p2 =>
+      obtain ⟨e1, e2⟩ := Prod.mk.inj hr
+      cases e1; cases e2
+      exact .endPrepare s1 h1 h2
+    | ok q =>
+      dsimp only at hr
+      rcases h3 : (runHandlers env fuel q).run.run { s2 with status := .runningOnUpdateHandlers }
+        with ⟨r3, s3⟩
+      rw [h3] at hr
+      cases r3 with
+      | error p3 =>
+        obtain ⟨e1, e2⟩ := Prod.mk.inj hr
+        cases e1; cases e2
+        exact .handlers s1 q s2 h1 h2 h3
+      | ok u' =>
+        obtain ⟨e1, -⟩ := Prod.mk.inj hr
+        cases e1
+
+/-- `stabilise` never touches the configuration or the liveness flag -/
+theorem stabilise_cfg_alive (env : Env) (fuel : Nat) (s : State) :
+    ((stabilise env fuel).run.run s).2.cfg = s.cfg ∧
+      ((stabilise env fuel).run.run s).2.alive = s.alive := by
+  by_cases h : s.status = .notStabilising
+  · rw [stabilise_run env fuel s h]
+    rcases h1 : (propagate env fuel).run.run { s with status := .stabilising } with ⟨r1, s1⟩
+    have k1 := (propagate_keeps env fuel).of_run h1
+    cases r1 with
+    | error p1 => exact ⟨k1.2.1, k1.2.2⟩
+    | ok u =>
+      simp only []
+      rcases h2 : (stabiliseEndPrepare env).run.run s1 with ⟨r2, s2⟩
+      have k2 := (stabiliseEndPrepare_keeps env).of_run h2
+      cases r2 with
+      | error p2 => exact ⟨k2.2.1.trans k1.2.1, k2.2.2.trans k1.2.2⟩
+      | ok q =>
+        simp only []
+        rcases h3 : (runHandlers env fuel q).run.run { s2 with status := .runningOnUpdateHandlers }
+          with ⟨r3, s3⟩
+        have k3 := (runHandlers_keeps env fuel q).of_run h3
+        cases r3 with
+        | error p3 => exact ⟨k3.2.1.trans (k2.2.1.trans k1.2.1), k3.2.2.trans (k2.2.2.trans k1.2.2)⟩
+        | ok u' => exact ⟨k3.2.1.trans (k2.2.1.trans k1.2.1), k3.2.2.trans (k2.2.2.trans k1.2.2)⟩
+  · rw [stabilise_refuses env fuel s h]
+    exact ⟨rfl, rfl⟩
+
+/-! ## example states (non-vacuity) -/
+
+/-- map function 1 and handler 1 panic, everything else is harmless -/
+def exEnv : Env :=
+  { fn := fun _ vs => vs.headD .unit, fnEff := fun f _ => if f = 1 then [.panic] else [],
+    foldStep := fun _ a _ => a, proj := fun _ v => v, withOld := fun _ σ _ v => (σ, v, true),
+    cutoff := fun _ _ _ => false, body := fun _ _ => { instrs := [], ret := .abs 0 },
+    handler := fun h _ => if h = 1 then [.panic] else [], expertFn := fun _ _ _ => .unit }
+
+/-- a fresh graph before its first stabilisation: var 0 (node 0, value 1), node 1 = map `f` of node 0,
+a new observer 0 on node 1 with one subscription running handler `hid` -/
+def exGraph (f hid : Nat) : State :=
+  { State.init 4 true with
+    nodes := #[{ kind := .var 0, createdIn := .top }, { kind := .map f [0], createdIn := .top }],
+    vars := #[{ value := .int 1, setAt := 0, node := 0 }],
+    observers := #[{ node := 1, handlers := [{ token := 0, hid := hid, createdAt := 0 }] }],
+    newObservers := [0], nextToken := 1, top := #[0, 1],
+    counters := { created := 2, activeObservers := 1 } }
+
+/-- `Except` has no `DecidableEq`; compare panics through this -/
+def panicOf {α} : Except Panic α → Option Panic
+  | .error p => some p
+  | .ok _ => none
+
+theorem run_eq_error {α} {x : Except Panic α × State} {p : Panic} (h : panicOf x.1 = some p) :
+    x = (.error p, x.2) := by
+  rcases x with ⟨r, s⟩
+  cases r with
+  | error e => simp only [panicOf, Option.some.injEq] at h; rw [h]
+  | ok a => simp [panicOf] at h
+
+theorem run_eq_ok {x : Except Panic Unit × State} (h : panicOf x.1 = none) :
+    x = (.ok (), x.2) := by
+  rcases x with ⟨r, s⟩
+  cases r with
+  | error e => simp [panicOf] at h
+  | ok a => rfl
+
+/-- the closure of node 1 panics: poisoned in the propagation phase -/
+def exPropPanic : State := ((stabilise exEnv 10).run.run (exGraph 1 0)).2
+/-- the update handler panics: poisoned in the handler phase -/
+def exHandlerPanic : State := ((stabilise exEnv 10).run.run (exGraph 0 1)).2
+
+/-- release build, well-formed heap whose `lower_bound` (1) is above the only queued node (height 0) -/
+def exReleaseHeap : State :=
+  { State.init 2 false with
+    nodes := #[{ kind := .const .unit, createdIn := .top, height := 0, heightInRch := 0,
+                 observers := [0] }],
+    rch := { queues := #[[0], [], []], length := 1, lowerBound := 1 } }
+
+theorem exReleaseHeap_heapWF : HeapWF exReleaseHeap := by
+  refine ⟨?_, ?_, ?_, ?_⟩
+  · intro h hh n
+    have hh' : h < 3 := hh
+    match h, hh' with
+    | 0, _ => rcases n with _ | n <;> simp [exReleaseHeap, State.nodeD, State.init] <;> omega
+    | 1, _ => rcases n with _ | n <;> simp [exReleaseHeap, State.nodeD, State.init] <;> omega
+    | 2, _ => rcases n with _ | n <;> simp [exReleaseHeap, State.nodeD, State.init] <;> omega
+  · intro h hh
+    have hh' : h < 3 := hh
+    match h, hh' with
+    | 0, _ => simp [exReleaseHeap]
+    | 1, _ => simp [exReleaseHeap]
+    | 2, _ => simp [exReleaseHeap]
+  · rfl
+  · intro n hn
+    have hn' : n < 1 := hn
+    match n, hn' with
+    | 0, _ => simp [exReleaseHeap, State.nodeD, State.init]
+
+/-- without debug assertions `HeapWF` alone does not make a returning drain complete: `remove_min`
+scans from `lower_bound`, runs off the end (only a `debug_assert!` there) and reports "empty" -/
+theorem release_drain_counterexample :
+    HeapWF exReleaseHeap ∧ exReleaseHeap.cfg.debug = false ∧
+      panicOf ((drainHeap exEnv 10).run.run exReleaseHeap).1 = none ∧
+      ((drainHeap exEnv 10).run.run exReleaseHeap).2.rch.length = 1 :=
+  ⟨exReleaseHeap_heapWF, rfl, by decide +kernel, by decide +kernel⟩
 
 end IncrVerif.Proofs.Poison
